@@ -1,4 +1,4 @@
-import LopdfModel.Thm.FileRt
+import LopdfModel.Thm.FileNorm
 /-
   One revision of either cross-reference style, read inside any extension of the file it ends:
   the kind-generic layer under `History` (C07) — `xrefObj`/`objectsWithXref` generalised over the
@@ -6,12 +6,6 @@ import LopdfModel.Thm.FileRt
 -/
 namespace Lopdf.FileRT
 open Lopdf Gen Lopdf.ObjRt
-
-/-- the cross-reference stream object a stream-style save appends to `pre` -/
-def xrefObjP (pre : Bytes) (d : SDoc) : Obj :=
-  .stream (streamTrailer pre d) (xrefStreamContent (streamSecs (xmapStream pre d) (d.maxId + 1)))
-
-theorem xrefObj_eq (d : SDoc) : xrefObj d = xrefObjP [] d := rfl
 
 /-- the map a revision's cross-reference section records -/
 def revMap (d : SDoc) (pre : Bytes) : XrefMap :=
@@ -21,16 +15,20 @@ def revSize (d : SDoc) : Nat := match d.xrefKind with | .table => d.maxId + 1 | 
 /-- the objects a reader finds in the revision: the document's, plus the `/XRef` stream object -/
 def revObjs (d : SDoc) (pre : Bytes) : Objects :=
   match d.xrefKind with | .table => d.objects | .stream => d.objects ++ [((d.maxId + 1, 0), xrefObjP pre d)]
-/-- the trailer the reader obtains from the revision's section -/
-def revTrailer (d : SDoc) (pre : Bytes) (d' : SDoc) : Dict :=
-  match d.xrefKind with | .table => d'.trailer | .stream => streamTrailerRead pre d
+/-- the trailer the reader obtains from the revision's section (normal form: an integral real is an
+integer) -/
+def streamTrailerReadN (pre : Bytes) (d : SDoc) : Dict :=
+  ((Dict.remove (normD (streamTrailer pre d)) LENGTH).remove W_KEY).remove INDEX
 
-/-- a revision the history theorems cover -/
+def revTrailer (d : SDoc) (pre : Bytes) (d' : SDoc) : Dict :=
+  match d.xrefKind with | .table => normD d'.trailer | .stream => streamTrailerReadN pre d
+
+/-- a revision the history theorems cover (real numbers allowed) -/
 structure RevOK (d : SDoc) : Prop where
   hmax : d.maxId + 2 ≤ 4294967295
   wf : DocWF d
-  objs : ∀ p ∈ d.objects, ObjOK p.2
-  tr : WFObj (.dict d.trailer) ∧ height (.dict d.trailer) ≤ MAX_NESTING ∧ NoRealD d.trailer
+  objs : ∀ p ∈ d.objects, ObjOKN p.2
+  tr : WFObj (.dict d.trailer) ∧ height (.dict d.trailer) ≤ MAX_NESTING
   nostm : d.trailer.get XREFSTM = none
   noenc : d.trailer.has ENCRYPT = false
 
@@ -39,7 +37,7 @@ structure RevFacts (buf : Bytes) (d : SDoc) (pre : Bytes) (X : XTable) : Prop wh
   get : ∀ n, X.get n = if 1 ≤ n ∧ n < revSize d then normalOf (revMap d pre) n else none
   nodup : (X.map (·.1)).Nodup
   recd : Recorded buf (revMap d pre) (revObjs d pre)
-  objsOK : ∀ p ∈ revObjs d pre, ObjOK p.2 ∧ p.1.1 + 1 < revSize d + 1 ∧ 1 ≤ p.1.1 ∧ p.1.2 < 65536
+  objsOK : ∀ p ∈ revObjs d pre, ObjOKN p.2 ∧ p.1.1 + 1 < revSize d + 1 ∧ 1 ≤ p.1.1 ∧ p.1.2 < 65536
   complete : ∀ id o, (revObjs d pre).get id = some o → ∃ off, (revMap d pre).get id.1 = some (off, id.2)
 
 theorem xrefObjP_ok (pre : Bytes) (d : SDoc) (out : Bytes) (d' : SDoc) (hk : d.xrefKind = .stream)
@@ -94,7 +92,7 @@ theorem rev_section (d : SDoc) (pre out : Bytes) (d' : SDoc) (hok : RevOK d)
     ∃ table, xrefAndTrailer ((out ++ R).drop (bodyOf pre d).length)
         = .ok (table, revSize d, revTrailer d pre d') ∧
       RevFacts (out ++ R) d pre table ∧ (bodyOf pre d).length < out.length ∧
-      (∀ k, FreeKey k → (revTrailer d pre d').get k = d.trailer.get k) ∧
+      (∀ k, FreeKey k → (revTrailer d pre d').get k = (d.trailer.get k).map norm) ∧
       (revTrailer d pre d').keys.Nodup := by
   have hb := body_le_out pre d out d' h
   have hbl : (bodyOf pre d).length < 4294967296 := by omega
@@ -105,7 +103,7 @@ theorem rev_section (d : SDoc) (pre out : Bytes) (d' : SDoc) (hok : RevOK d)
       (by intro n off g hg; simp [XrefMap.get] at hg)
       (fun p hp => Objects_get_of_mem d.objects hok.wf.nodup p hp)
       (by unfold bodyOf at hbl; exact hbl)
-  have hdocOK : ∀ p ∈ d.objects, ObjOK p.2 ∧ p.1.1 ≤ d.maxId ∧ 1 ≤ p.1.1 ∧ p.1.2 < 65536 := by
+  have hdocOK : ∀ p ∈ d.objects, ObjOKN p.2 ∧ p.1.1 ≤ d.maxId ∧ 1 ≤ p.1.1 ∧ p.1.2 < 65536 := by
     intro p hp
     obtain ⟨r1, r2⟩ := hok.wf.range p hp
     exact ⟨hok.objs p hp, r2, r1, hok.wf.gens p hp⟩
@@ -116,14 +114,26 @@ theorem rev_section (d : SDoc) (pre out : Bytes) (d' : SDoc) (hok : RevOK d)
   cases hk : d.xrefKind with
   | table =>
     obtain ⟨hout, htr⟩ := saveFrom_table_eq pre d out d' hk h
-    have hD := setSize_readsBack d.trailer d.maxId (by have := hok.hmax; omega) hok.tr
-    rw [← htr] at hD
+    have hD : ∀ rest, DictReadsBackN d'.trailer (normD d'.trailer) rest := by
+      intro rest
+      obtain ⟨t1, t2⟩ := hok.tr
+      have hi : -(I64_MAX : Int) - 1 ≤ ((d.maxId : Int) + 1) ∧ ((d.maxId : Int) + 1) ≤ I64_MAX := by
+        have := hok.hmax; simp [I64_MAX]; omega
+      unfold DictReadsBackN
+      rw [htr]
+      apply pDictionary_rt
+      · simp only [WFObj, WF] at t1 ⊢
+        exact ⟨Dict_nodup_set d.trailer SIZE _ t1.1, WFD_set_int _ _ _ hi t1.2⟩
+      · simp only [height] at t2 ⊢
+        have := heightD_set_int d.trailer SIZE ((d.maxId : Int) + 1)
+        omega
     have e1 : out ++ R = bodyOf pre d ++ (writeXrefTable (xmapOf pre d) (d.maxId + 1) ++ (TRAILER_KW ++
         (writeObj (.dict d'.trailer) ++ (STARTXREF_KW ++ natDigits (bodyOf pre d).length ++ EOF_KW ++ R)))) := by
       rw [hout, htr]; simp only [List.append_assoc]
-    obtain ⟨table, hxt, hget, hnodup⟩ := xrefAndTrailer_table (xmapOf pre d) (d.maxId + 1) d'.trailer
+    obtain ⟨table, hxt, hget, hnodup⟩ := xrefAndTrailer_tableN (xmapOf pre d) (d.maxId + 1) d'.trailer (normD d'.trailer)
       (STARTXREF_KW ++ natDigits (bodyOf pre d).length ++ EOF_KW ++ R)
-      (xmapOf_ok pre d hok.wf.gens) (by have := hok.hmax; omega) (hD _) (by rw [htr, Dict.get_set_same]; simp)
+      (xmapOf_ok pre d hok.wf.gens) (by have := hok.hmax; omega) (hD _)
+      (by rw [normD_get, htr, Dict.get_set_same]; simp [norm])
     refine ⟨table, ?_, ⟨?_, hnodup, ?_, ?_, ?_⟩, ?_, ?_, ?_⟩
     · simp only [revSize, revTrailer, hk]
       rw [e1, List.drop_left]; exact hxt
@@ -138,32 +148,35 @@ theorem rev_section (d : SDoc) (pre out : Bytes) (d' : SDoc) (hok : RevOK d)
     · rw [hout]; simp only [List.length_append, writeXrefTable, XREF_KW, List.length_cons]; omega
     · intro k hk'
       simp only [revTrailer, hk]
-      rw [htr, Dict_get_set]; simp only [hk'.2.1, if_false]
-    · simp only [revTrailer, hk]
-      rw [htr]; exact Dict_nodup_set _ _ _ hnd
+      rw [normD_get, htr, Dict_get_set]; simp only [hk'.2.1, if_false]
+    · simp only [revTrailer, hk, Dict.keys]
+      rw [normD_keys, htr]; exact Dict_nodup_set _ _ _ hnd
   | stream =>
     obtain ⟨hout, htr⟩ := saveFrom_stream_eq pre d out d' hk h
-    have hokx := xrefObjP_ok pre d out d' hk h hlen hok.hmax hok.wf.gens hok.tr
-    obtain ⟨x1, x2, x3, x4⟩ := hokx
-    generalize hc : xrefStreamContent (streamSecs (xmapStream pre d) (d.maxId + 1)) = content at hout x4
+    have hokx := xrefObjP_okN pre d out d' hk h hlen hok.hmax hok.wf.gens hok.tr
+    obtain ⟨x1, x2, x4⟩ := hokx
+    obtain ⟨n1, n2, n3, n4, n5, _⟩ := normD_streamTrailer_facts pre d hnd hok.hmax hok.wf.gens
+    generalize hc : xrefStreamContent (streamSecs (xmapStream pre d) (d.maxId + 1)) = content at hout x4 n5
     obtain ⟨tail, htail⟩ : ∃ t, t = STARTXREF_KW ++ natDigits (bodyOf pre d).length ++ EOF_KW ++ R := ⟨_, rfl⟩
     have e : out ++ R = bodyOf pre d ++ (writeIndirect (d.maxId + 1) 0 (.stream (streamTrailer pre d) content) ++ tail) := by
       rw [hout, htail]; simp only [List.append_assoc]
-    have hD : DictReadsBack (streamTrailer pre d)
+    have hD : DictReadsBackN (streamTrailer pre d) (normD (streamTrailer pre d))
         (STREAM_KW ++ (content ++ (ENDSTREAM_KW ++ 32 :: (ENDOBJ_TAIL ++ tail)))) :=
-      pDictionary_rt_noReal _ _ x1 x2 x3
-    obtain ⟨f1, f2, f3, f4, f5⟩ := streamTrailer_facts pre d hnd (.int content.length)
-    rw [hc] at f5
+      pDictionary_rt _ _ x1 x2
+    have hset : Dict.set (normD (streamTrailer pre d)) LENGTH (.int content.length) = normD (streamTrailer pre d) :=
+      Dict_set_same _ _ _ n5
     have hxs : (∀ n off g, (xmapStream pre d).get n = some (off, g) → off < 4294967296 ∧ g < 65536) :=
       xmapStream_ok pre d hok.wf.gens
     obtain ⟨table, hdec, hget, hnodup⟩ := xref_stream_rt (xmapStream pre d) (d.maxId + 1)
-      ((streamTrailer pre d).set LENGTH (.int content.length)) ((d.maxId + 1 + 1 : Nat) : Int)
+      (normD (streamTrailer pre d)) ((d.maxId + 1 + 1 : Nat) : Int)
       hxs (by have := hok.hmax; omega)
-      ⟨d.maxId + 1, by omega, by omega, by simp [xmapStream, XrefMap.get_insert_same]⟩ f1 f2 f3 f4
+      ⟨d.maxId + 1, by omega, by omega, by simp [xmapStream, XrefMap.get_insert_same]⟩ n1 n2 n3 n4
     rw [hc] at hdec
     have hmod : ((((d.maxId + 1 + 1 : Nat) : Int)) % (U32 : Int)).toNat = d.maxId + 2 := by
       have := hok.hmax
       simp [U32]; omega
+    have hndN : (Dict.keys (normD (streamTrailer pre d))).Nodup := by
+      simp only [Dict.keys]; rw [normD_keys]; exact streamTrailer_nodup pre d hnd
     -- objects
     have hnotin : ∀ g, d.objects.get (d.maxId + 1, g) = none := by
       intro g
@@ -189,8 +202,8 @@ theorem rev_section (d : SDoc) (pre out : Bytes) (d' : SDoc) (hok : RevOK d)
     have hxo : xrefObjP pre d = .stream (streamTrailer pre d) content := by simp only [xrefObjP, hc]
     refine ⟨table, ?_, ⟨?_, hnodup, ?_, ?_, ?_⟩, ?_, ?_, ?_⟩
     · simp only [revSize, revTrailer, hk]
-      rw [e, List.drop_left, xrefAndTrailer_xrefStream (d.maxId + 1) (streamTrailer pre d) content tail
-        (by have := hok.hmax; simp [U32_MAX]; omega) f5 hD, hdec, hmod, streamTrailerRead, hc]
+      rw [e, List.drop_left, xrefAndTrailer_xrefStreamN (d.maxId + 1) (streamTrailer pre d) (normD (streamTrailer pre d))
+        content tail (by have := hok.hmax; simp [U32_MAX]; omega) n5 hD, hset, hdec, hmod, streamTrailerReadN]
     · simp only [revSize, revMap, hk]
       intro n
       rw [hget n]
@@ -223,9 +236,9 @@ theorem rev_section (d : SDoc) (pre out : Bytes) (d' : SDoc) (hok : RevOK d)
       · simp only [List.mem_singleton] at hp
         subst hp
         refine ⟨?_, by simp only; omega, by simp only; omega, by simp only; omega⟩
-        show ObjOK (xrefObjP pre d)
+        show ObjOKN (xrefObjP pre d)
         rw [hxo]
-        exact ⟨x1, x2, x3, x4⟩
+        exact ⟨x1, x2, x4⟩
     · simp only [revObjs, revMap, hk]
       intro id o hd
       by_cases hn : id.1 = d.maxId + 1
@@ -249,9 +262,13 @@ theorem rev_section (d : SDoc) (pre out : Bytes) (d' : SDoc) (hok : RevOK d)
         exact ⟨off, by simp only [xmapStream, XrefMap.get_insert_other _ _ _ _ hn]; exact hx⟩
     · rw [hout]; simp only [List.length_append, writeIndirect]; simp; omega
     · intro k hk'
-      simp only [revTrailer, hk]
-      exact streamTrailerRead_get_other pre d hnd k hk'.1 hk'.2.1 hk'.2.2.1 hk'.2.2.2.1 hk'.2.2.2.2.1 hk'.2.2.2.2.2
-    · simp only [revTrailer, hk]
-      exact streamTrailerRead_nodup pre d hnd
+      simp only [revTrailer, hk, streamTrailerReadN]
+      have m1 := Dict_nodup_remove _ LENGTH hndN
+      have m2 := Dict_nodup_remove _ W_KEY m1
+      rw [Dict_get_remove _ _ _ m2, Dict_get_remove _ _ _ m1, Dict_get_remove _ _ _ hndN, normD_get]
+      simp only [hk'.2.2.2.1, hk'.2.2.1, hk'.2.2.2.2.2, if_false]
+      rw [streamTrailer_get_other pre d hnd k hk'.1 hk'.2.1 hk'.2.2.1 hk'.2.2.2.1 hk'.2.2.2.2.1 hk'.2.2.2.2.2]
+    · simp only [revTrailer, hk, streamTrailerReadN]
+      exact Dict_nodup_remove _ _ (Dict_nodup_remove _ _ (Dict_nodup_remove _ _ hndN))
 
 end Lopdf.FileRT
